@@ -6,7 +6,7 @@ from decimal import Decimal
 
 import numpy as np
 
-from ..common import SRC, Ctx, Tokens, close, driver_batch, f2b, fmat, fvec, vec
+from ..common import SRC, Ctx, DriverError, Tokens, close, driver_batch, f2b, fmat, fvec, vec
 
 LEVEL = "proof"
 LEVEL_TEXT = (
@@ -114,6 +114,13 @@ RULE = (
     "2-D C and Fortran / reversed view / column of a matrix) through a sequence of coulomb_gaussian_s / _p calls with several exponents, every answer "
     "against the generated closed form at the ORIGINAL radii, array and owner unchanged; the oracle does the same against the mpmath closed form and for "
     "the points / centres / coefficient / exponent arrays of coulomb_potential over several calls. "
+    "Round 4 (every quick run): consecutive centres of coulomb_potential that are distinct but close -- R + delta e and R (1 + delta) for delta = 1e-12 .. 1e-3, "
+    "two / three / four in a row with other coefficients and exponents, a p centre next to (and exactly on) the last s centre, finite-difference pairs R +- h/2 e "
+    "with coefficients +-1/h for h = 1e-3, 1e-5, 1e-7 along every axis, evaluation points 3 and 30 delta from the centres, on them and far; N / Ks / Kp unequal, 0, 1, 2 and "
+    "the (3, 3) cases with the first / last point on the first / last centre; arguments as negative-stride views, bool, float16; radii of shape (1,5) .. (3,1,2). "
+    "Oracle only: arrays held by grid objects (UniformInteger int64 points, a transformed radial grid, the points of an off-centre AtomGrid, the loader's arrays), "
+    "every documented way of handing over the arguments, one array through different entry points, rejected calls between accepted ones (and an unreadable resource "
+    "on a cold start of the loader), sqrt(alpha) r where erf saturates / exp underflows, the shipped contractions along a ray from the nucleus. "
     "Non-trivial = a scalar case with "
     "0 < sqrt(alpha) r < 6 (erf neither 0 nor saturated) or r within a factor 4 of the switch threshold; a multi-centre case with "
     ">= 2 functions and >= 1 point; a loader case whose text differs from the stored key or that starts from an empty cache"
@@ -140,6 +147,10 @@ ASSUMPTIONS = [
     "UNNORMALISED_ENVELOPE",
     "the floating-point translation invariance is asserted for exactly representable shifts and offsets only (then points - centre is the same double array "
     "in both frames); for generic far-away coordinates the distance itself carries the rounding of the inputs, which is not the library's doing",
+    "round 4, information: complex coefficient arrays are converted by np.asarray(..., dtype=float) with a ComplexWarning, the imaginary part is dropped (the documentation says "
+    "real coefficients; class 17 has no callback here); close-centre cases below delta = 1e-10 use exponents <= 1e8 (radii reach the small-r switch, see the round-3 envelope)",
+    "corr and oracle run as independent parts (_Parts): an exception raised by the library inside a part is recorded as `<part>:raises`, a driver / harness exception is "
+    "re-raised after all parts have run",
     "alpha given as np.float32 is computed in single precision by NumPy (deviation ~3e-8, docstring says float): pinned with rtol 1e-6, information only",
 ]
 
@@ -220,6 +231,42 @@ def _json_tables():
 
 
 # ----------------------------------------------------------------------------
+# round 4: independent parts -- one part raising does not hide what the others find
+# ----------------------------------------------------------------------------
+def _raised_in_library(e) -> bool:
+    import traceback
+    src = str(SRC)
+    return any(str(fr.filename).startswith(src) for fr in traceback.extract_tb(e.__traceback__))
+
+
+class _Parts:
+    """Runs the parts of `corr` / `oracle` one after the other.  An exception raised *by the library* (a frame of the tree
+    under test is on the traceback) inside a part is a failure of that part, recorded as `<key>:raises`; any other exception
+    (driver, harness) is kept and the first one is re-raised by `finish()` after every part has run."""
+
+    def __init__(self, ctx, stage):
+        self.ctx, self.stage, self.first = ctx, stage, None
+
+    def run(self, key, fn, *args, **kw):
+        import traceback
+        try:
+            return fn(*args, **kw)
+        except DriverError as e:
+            self.first = self.first or e
+        except Exception as e:  # noqa: BLE001
+            if _raised_in_library(e):
+                self.ctx.fail(self.stage, key + ":raises", f"part '{key}' of the {self.stage}: the library raised {type(e).__name__}: {e} on an input inside the "
+                              "sampled envelope (accepted by the unchanged tree)", witness=traceback.format_exc()[-2500:])
+            else:
+                self.first = self.first or e
+        return None
+
+    def finish(self):
+        if self.first is not None:
+            raise self.first
+
+
+# ----------------------------------------------------------------------------
 # correspondence
 # ----------------------------------------------------------------------------
 def corr(ctx: Ctx):
@@ -227,7 +274,25 @@ def corr(ctx: Ctx):
     utils = importlib.import_module("grid.utils")
     raw = _json_tables()
     table_alphas = sorted({float(a) for e in raw.values() for a in e["alphas_s"]})
+    thr = float(cb._R_ZERO_THRESHOLD)
+    parts = _Parts(ctx, "corr")
+    parts.run("coulomb_gaussian:scalar", _corr_scalar_forms, ctx, cb, table_alphas)
+    parts.run("coulomb_gaussian:elementwise", _corr_elementwise, ctx, cb, thr)
+    # -- container kinds / dtypes / call paths of the scalar functions -----------------------------
+    parts.run("coulomb_gaussian:container", _corr_scalar_containers, ctx, cb, thr)
+    # -- round 3b: one array object reused over a sequence of calls ------------------------------------
+    parts.run("coulomb_gaussian:reuse", _corr_reuse, ctx, cb, thr)
+    parts.run("pcorr-model", _corr_pcorr, ctx)
+    # -- multi-centre ------------------------------------------------------------
+    parts.run("coulomb_potential", _corr_multi, ctx, cb, thr)
+    # -- loader --------------------------------------------------------------------
+    parts.run("load_atomic_gaussian_params", _corr_loader, ctx, cb, utils, raw)
+    # -- round 4 ---------------------------------------------------------------------
+    parts.run("round4", _corr_round4, ctx, cb, utils, thr, parts)
+    parts.finish()
 
+
+def _corr_scalar_forms(ctx: Ctx, cb, table_alphas):
     # -- threshold constant ----------------------------------------------------
     tag, t = _ans(driver_batch(["C17.thr"])[0])
     thr = float(cb._R_ZERO_THRESHOLD)
@@ -283,7 +348,11 @@ def corr(ctx: Ctx):
                 ctx.fail("corr", f"coulomb_gaussian_{kind}", f"coulomb_gaussian_{kind}(r={r!r}, alpha={alpha!r}, normalized={nz}): "
                          f"implementation {iv!r}, generated model {mv!r}",
                          witness={"r": r, "alpha": alpha, "normalized": nz, "impl": iv, "model": mv})
+
+
+def _corr_elementwise(ctx: Ctx, cb, thr):
     # array call == scalar calls (elementwise reading of the translator)
+    fns = {"s": cb.coulomb_gaussian_s, "p": cb.coulomb_gaussian_p}
     for kind in ("s", "p"):
         for nz in (True, False):
             alpha = 10.0 ** ctx.rng.uniform(-3, 3)
@@ -297,11 +366,8 @@ def corr(ctx: Ctx):
                 ctx.fail("corr", f"coulomb_gaussian_{kind}:elementwise", f"coulomb_gaussian_{kind} on an array differs from the "
                          f"calls on its elements (alpha={alpha!r})", witness={"r": rs.tolist(), "alpha": alpha})
 
-    # -- container kinds / dtypes / call paths of the scalar functions -----------------------------
-    _corr_scalar_containers(ctx, cb, thr)
-    # -- round 3b: one array object reused over a sequence of calls ------------------------------------
-    _corr_reuse(ctx, cb, thr)
 
+def _corr_pcorr(ctx: Ctx):
     # -- the hand-written corrected p formula is what mpmath's Coulomb integral gives ------
     pts = [(0.0, 1.0), (0.0, 3.0), (0.5, 3.0), (2.0, 3.0), (1.0, 1.0), (0.1, 7.5), (3.0, 0.3), (1e-13, 2.0),
            (10.0 ** ctx.rng.uniform(-2, 1), 10.0 ** ctx.rng.uniform(-2, 2))]
@@ -316,10 +382,6 @@ def corr(ctx: Ctx):
                 ctx.fail("corr", "pcorr-model", f"hand-written corrected p formula at r={r!r}, alpha={a!r}, normalized={nz} "
                          f"is not the Coulomb integral of the documented density ({ref!r})")
 
-    # -- multi-centre ------------------------------------------------------------
-    _corr_multi(ctx, cb, thr)
-    # -- loader --------------------------------------------------------------------
-    _corr_loader(ctx, cb, utils, raw)
 
 
 def _rand_gaussians(ctx: Ctx, k, bad_alpha=False):
@@ -361,6 +423,12 @@ def _as_kind(x, kind):
         y = x.copy()
         y.setflags(write=False)
         return y
+    if kind == "negstride":  # round 4: a reversed view of reversed data (negative stride along axis 0)
+        return x[::-1].copy()[::-1]
+    if kind == "bool":
+        return np.rint(x).astype(bool)
+    if kind == "f16":
+        return x.astype(np.float16)
     raise KeyError(kind)
 
 
@@ -1564,117 +1632,136 @@ def _check_pot_exact(ctx: Ctx, cb, args, normalized, where, tol=1e-12, s_closed_
     return bad
 
 
-def _oracle_round3(ctx: Ctx, cb, utils, thr, large):
+def _oracle_round3(ctx: Ctx, cb, utils, thr, large, parts=None):
+    parts = parts or _Parts(ctx, "oracle")
     mp = _mp()
     ctx.info("C17 envelopes measured on the pinned tree (round 3): small-r branch (0 < r < 1e-12) exact to alpha r^2/3, sampled for alpha r^2 <= 3e-11; "
              f"unnormalised prefactors inside the double range for alpha in {UNNORMALISED_ENVELOPE}; far frames: shifts up to 1.5 x 2^20 with offsets on the grid 2^(e-50)")
-    # (g) class 8: frames far from the origin with tight exponents.  The shifted call must give the potential of the same
-    #     molecule: equal to the exact-distance reference AND to the unshifted call (the shift is exactly representable,
-    #     so are all shifted coordinates: the only thing that changes is where the molecule sits).
-    for i in range(45 if large else 10):
-        m = _far_molecule(ctx, thr, e=6 + i % 15 if i < 15 else None)
-        nz = ctx.rng.random() < 0.7
-        where = f"molecule shifted by T={m['T']} (2^{m['e']} frame, dyadic offsets)"
-        ctx.tagc("oracle:far-frame")
-        if _check_pot_exact(ctx, cb, m["far"], nz, where, s_closed_form=(i % 2 == 0)):
-            continue
-        if _check_pot_exact(ctx, cb, m["base"], nz, "the same molecule around the origin", s_closed_form=(i % 2 == 0)):
-            continue
-        v0, v1 = _call_pot_lists(cb, m["base"], nz), _call_pot_lists(cb, m["far"], nz)
-        _, scale = _pot_reference_exact(cb, m["base"], nz)
-        if np.any(np.abs(v1 - v0) > 1e-12 * scale + 1e-300):
-            ctx.fail("oracle", "coulomb.coulomb_potential", f"coulomb_potential is not invariant under the exactly representable common shift T={m['T']} of points and "
-                     f"centres: {v1.tolist()} (shifted) vs {v0.tolist()} (around the origin)",
-                     witness={"base": m["base"], "shifted": m["far"], "T": m["T"], "normalized": nz},
-                     snippet=SNIPPET_FAR.format(args=m["far"], normalized=nz, tol=1e-12))
-    # (h) class 8: coefficients scaled by k over 1e-271 .. 1e271 -- the result is k times the unscaled one, relative to
-    #     that scale (powers of two: exactly), exponents over 24 orders of magnitude
-    for i in range(30 if large else 6):
-        ks, kp = ctx.rng.choice([1, 2, 3]), ctx.rng.choice([None, 1, 2])
-        cs, co, al = _rand_gaussians(ctx, ks)
-        al = [10.0 ** ctx.rng.uniform(-12, 12) for _ in al] if i % 2 else al
-        co = [c or 1.0 for c in co]
-        args = dict(points=[[ctx.rng.uniform(-3, 3) for _ in range(3)] for _ in range(3)] + [list(cs[0])], centers_s=cs, coeffs_s=co, alphas_s=al,
-                    centers_p=None, coeffs_p=None, alphas_p=None)
-        if kp:
-            cp, cop, alp = _rand_gaussians(ctx, kp)
-            args.update(centers_p=cp, coeffs_p=[c or 1.0 for c in cop], alphas_p=alp)
-        nz = ctx.rng.random() < 0.6
-        k = SCALES[i % len(SCALES)]
-        ctx.tagc("oracle:scaled-coefficients")
-        scaled = dict(args, coeffs_s=[c * k for c in args["coeffs_s"]], coeffs_p=None if args["coeffs_p"] is None else [c * k for c in args["coeffs_p"]])
-        if _check_pot_exact(ctx, cb, scaled, nz, f"coefficients scaled by {k!r}"):
-            continue
-        v0, v1 = _call_pot_lists(cb, args, nz), _call_pot_lists(cb, scaled, nz)
-        _, scale = _pot_reference_exact(cb, args, nz)
-        if np.any(np.abs(v1 - k * v0) > 1e-12 * k * scale):
-            ctx.fail("oracle", "coulomb.coulomb_potential", f"coulomb_potential with all coefficients multiplied by {k!r} is not {k!r} x the unscaled result: "
-                     f"{v1.tolist()} vs {(k * v0).tolist()}", witness={"args": scaled, "scale": k, "normalized": nz},
-                     snippet=SNIPPET_FAR.format(args=scaled, normalized=nz, tol=1e-12))
-    # (i) class 12: special points and degenerate sets, with the values known in closed form where there is one
-    for nz in (True, False):
-        for name, args in _special_pot_args(ctx, thr):
-            npts = len(args["points"])
-            expect = None
-            ctx.tagc("oracle:special:" + name)
-            if name in ("empty-s-none-p", "empty-s-empty-p", "nothing-at-all", "zero-coefficients-all", "coincident-cancelling"):
-                expect = [0.0] * npts
-            if name == "no-points":
-                expect = []
-            if _check_pot_exact(ctx, cb, args, nz, f"special input '{name}'", expect=expect, s_closed_form=True):
+    def part_far_frames():
+        # (g) class 8: frames far from the origin with tight exponents.  The shifted call must give the potential of the same
+        #     molecule: equal to the exact-distance reference AND to the unshifted call (the shift is exactly representable,
+        #     so are all shifted coordinates: the only thing that changes is where the molecule sits).
+        for i in range(45 if large else 10):
+            m = _far_molecule(ctx, thr, e=6 + i % 15 if i < 15 else None)
+            nz = ctx.rng.random() < 0.7
+            where = f"molecule shifted by T={m['T']} (2^{m['e']} frame, dyadic offsets)"
+            ctx.tagc("oracle:far-frame")
+            if _check_pot_exact(ctx, cb, m["far"], nz, where, s_closed_form=(i % 2 == 0)):
                 continue
-            if name == "coincident-3x-same":  # three times the same function = 3 x 0.5 x one function
-                one = dict(args, centers_s=args["centers_s"][:1], coeffs_s=[1.5], alphas_s=args["alphas_s"][:1])
-                v3, v1 = _call_pot_lists(cb, args, nz), _call_pot_lists(cb, one, nz)
-                if np.any(np.abs(v3 - v1) > 1e-13 * np.abs(v1)):
-                    ctx.fail("oracle", "coulomb.coulomb_potential", f"three coincident identical s functions with coefficient 0.5 give {v3.tolist()}, one with coefficient 1.5 gives {v1.tolist()}",
-                             witness={"args": args, "normalized": nz}, snippet=SNIPPET_FAR.format(args=args, normalized=nz, tol=1e-12))
-    # a point on the centre of one normalised s function, any frame: c * 2 sqrt(alpha/pi) (Coulomb integral at r = 0)
-    for _ in range(6 if large else 2):
-        a = 10.0 ** ctx.rng.uniform(-6, 12)
-        R = [ctx.rng.choice([1.0, -1.0, 3.0]) * 2.0 ** ctx.rng.randint(-3, 20) for _ in range(3)]
-        c = ctx.rng.uniform(-2, 2)
-        args = dict(points=[R], centers_s=[R], coeffs_s=[c], alphas_s=[a], centers_p=None, coeffs_p=None, alphas_p=None)
-        v0 = float(c * _ref_s_scaled(a, 0.0, True))
-        _check_pot_exact(ctx, cb, args, True, "one point on the centre of one s function", expect=[v0], tol=1e-10, s_closed_form=True)
-    # (j) class 7: the s function on both sides of the switch within factors 1.01 and 100, and exponents of extreme
-    #     magnitude, against the Coulomb integral (rescaled variable).  Below the switch the code returns the r -> 0 limit:
-    #     exact to alpha r^2 / 3 (GridVerif.C17.s_origin) -- sampled where that is below 1e-11 (alpha r^2 <= 3e-11); the
-    #     unnormalised variant where its prefactor is inside the double range.
-    alphas = [1.0, 1e-6, 1e6, 1e10, 3e12, 10.0 ** ctx.rng.uniform(-10, 12), 10.0 ** ctx.rng.uniform(6, 13)] + (EXTREME_ALPHAS if large else [1e-300, 1e-120, 1e120, 1e300, 1.7976931348623157e308])
-    for a in alphas:
-        sa = math.sqrt(a)
-        radii = [thr / 100, thr / 1.01, float(np.nextafter(thr, 0)), thr, thr * 1.01, thr * 100, 0.0]
-        radii += [x / sa for x in (1e-3, 0.7, 3.0, 9.0)]
-        for r in radii:
-            if 0 < r < thr and a * r * r > 3e-11:
-                continue  # outside the accuracy envelope of the small-r branch (reported, not asserted)
-            for nz in (True, False):
-                if not nz and not _unnormalised_in_range("s", a):
+            if _check_pot_exact(ctx, cb, m["base"], nz, "the same molecule around the origin", s_closed_form=(i % 2 == 0)):
+                continue
+            v0, v1 = _call_pot_lists(cb, m["base"], nz), _call_pot_lists(cb, m["far"], nz)
+            _, scale = _pot_reference_exact(cb, m["base"], nz)
+            if np.any(np.abs(v1 - v0) > 1e-12 * scale + 1e-300):
+                ctx.fail("oracle", "coulomb.coulomb_potential", f"coulomb_potential is not invariant under the exactly representable common shift T={m['T']} of points and "
+                         f"centres: {v1.tolist()} (shifted) vs {v0.tolist()} (around the origin)",
+                         witness={"base": m["base"], "shifted": m["far"], "T": m["T"], "normalized": nz},
+                         snippet=SNIPPET_FAR.format(args=m["far"], normalized=nz, tol=1e-12))
+
+    def part_scaled():
+        # (h) class 8: coefficients scaled by k over 1e-271 .. 1e271 -- the result is k times the unscaled one, relative to
+        #     that scale (powers of two: exactly), exponents over 24 orders of magnitude
+        for i in range(30 if large else 6):
+            ks, kp = ctx.rng.choice([1, 2, 3]), ctx.rng.choice([None, 1, 2])
+            cs, co, al = _rand_gaussians(ctx, ks)
+            al = [10.0 ** ctx.rng.uniform(-12, 12) for _ in al] if i % 2 else al
+            co = [c or 1.0 for c in co]
+            args = dict(points=[[ctx.rng.uniform(-3, 3) for _ in range(3)] for _ in range(3)] + [list(cs[0])], centers_s=cs, coeffs_s=co, alphas_s=al,
+                        centers_p=None, coeffs_p=None, alphas_p=None)
+            if kp:
+                cp, cop, alp = _rand_gaussians(ctx, kp)
+                args.update(centers_p=cp, coeffs_p=[c or 1.0 for c in cop], alphas_p=alp)
+            nz = ctx.rng.random() < 0.6
+            k = SCALES[i % len(SCALES)]
+            ctx.tagc("oracle:scaled-coefficients")
+            scaled = dict(args, coeffs_s=[c * k for c in args["coeffs_s"]], coeffs_p=None if args["coeffs_p"] is None else [c * k for c in args["coeffs_p"]])
+            if _check_pot_exact(ctx, cb, scaled, nz, f"coefficients scaled by {k!r}"):
+                continue
+            v0, v1 = _call_pot_lists(cb, args, nz), _call_pot_lists(cb, scaled, nz)
+            _, scale = _pot_reference_exact(cb, args, nz)
+            if np.any(np.abs(v1 - k * v0) > 1e-12 * k * scale):
+                ctx.fail("oracle", "coulomb.coulomb_potential", f"coulomb_potential with all coefficients multiplied by {k!r} is not {k!r} x the unscaled result: "
+                         f"{v1.tolist()} vs {(k * v0).tolist()}", witness={"args": scaled, "scale": k, "normalized": nz},
+                         snippet=SNIPPET_FAR.format(args=scaled, normalized=nz, tol=1e-12))
+
+    def part_special():
+        # (i) class 12: special points and degenerate sets, with the values known in closed form where there is one
+        for nz in (True, False):
+            for name, args in _special_pot_args(ctx, thr):
+                npts = len(args["points"])
+                expect = None
+                ctx.tagc("oracle:special:" + name)
+                if name in ("empty-s-none-p", "empty-s-empty-p", "nothing-at-all", "zero-coefficients-all", "coincident-cancelling"):
+                    expect = [0.0] * npts
+                if name == "no-points":
+                    expect = []
+                if _check_pot_exact(ctx, cb, args, nz, f"special input '{name}'", expect=expect, s_closed_form=True):
                     continue
-                ref = _ref_s_scaled(a, r, nz)
-                ctx.tagc("oracle:s:" + ("below-switch" if 0 < r < thr else "r=0" if r == 0 else "near-switch" if r <= 100 * thr else "bulk")
-                         + (":extreme-alpha" if not 1e-20 < a < 1e20 else ""))
-                with np.errstate(all="ignore"):
-                    got = float(cb.coulomb_gaussian_s(r, a, normalized=nz)[0])
-                if not abs(got - ref) <= 1e-10 * abs(ref):
-                    ctx.fail("oracle", "coulomb.coulomb_gaussian_s",
-                             f"coulomb_gaussian_s(r={r!r}, alpha={a!r}, normalized={nz}) = {got!r}, but the Coulomb potential of the documented density is "
-                             f"{mp.nstr(ref, 17)} (relative deviation {mp.nstr(abs(got - ref) / abs(ref), 4)})",
-                             witness={"r": r, "alpha": a, "normalized": nz, "got": got, "reference": mp.nstr(ref, 20)},
-                             snippet=SNIPPET_S_SCALED.format(alpha=a, r=r, normalized=nz, tol=1e-10))
-    # (k) class 9: the loader asked for keys it has no parameters for (elements without an entry, non-elements, objects of the
-    #     wrong type), repeatedly and between successful loads: always the same rejection, and what the library keeps
-    #     (the module cache = the parsed file, grid.utils.sym2num / num2sym) is what it was
-    raw_float = {k: {kk: [float(x) for x in vv] for kk, vv in v.items()} for k, v in _json_tables().items()}
-    stored = list(raw_float)
-    missing = [s_ for s_ in utils.sym2num if s_ not in raw_float]
-    for _ in range(6 if large else 2):
-        m1, m2 = ctx.rng.choice(missing), ctx.rng.choice(missing)
-        k1 = ctx.rng.choice(stored)
-        hist = [(m1, True), (m1, False), (k1, False), (m1.lower(), False), (int(utils.sym2num[m2]), False), (k1.lower(), False), ("Xx", False), (m2, False),
-                (np.int64(utils.sym2num[m1]), False), (int(utils.sym2num[k1]), False), (0, False), (m1, False), (k1, False)]
-        _check_load_history(ctx, cb, utils, raw_float, hist, "keys without parameters between successful loads")
+                if name == "coincident-3x-same":  # three times the same function = 3 x 0.5 x one function
+                    one = dict(args, centers_s=args["centers_s"][:1], coeffs_s=[1.5], alphas_s=args["alphas_s"][:1])
+                    v3, v1 = _call_pot_lists(cb, args, nz), _call_pot_lists(cb, one, nz)
+                    if np.any(np.abs(v3 - v1) > 1e-13 * np.abs(v1)):
+                        ctx.fail("oracle", "coulomb.coulomb_potential", f"three coincident identical s functions with coefficient 0.5 give {v3.tolist()}, one with coefficient 1.5 gives {v1.tolist()}",
+                                 witness={"args": args, "normalized": nz}, snippet=SNIPPET_FAR.format(args=args, normalized=nz, tol=1e-12))
+
+    def part_on_centre():
+        # a point on the centre of one normalised s function, any frame: c * 2 sqrt(alpha/pi) (Coulomb integral at r = 0)
+        for _ in range(6 if large else 2):
+            a = 10.0 ** ctx.rng.uniform(-6, 12)
+            R = [ctx.rng.choice([1.0, -1.0, 3.0]) * 2.0 ** ctx.rng.randint(-3, 20) for _ in range(3)]
+            c = ctx.rng.uniform(-2, 2)
+            args = dict(points=[R], centers_s=[R], coeffs_s=[c], alphas_s=[a], centers_p=None, coeffs_p=None, alphas_p=None)
+            v0 = float(c * _ref_s_scaled(a, 0.0, True))
+            _check_pot_exact(ctx, cb, args, True, "one point on the centre of one s function", expect=[v0], tol=1e-10, s_closed_form=True)
+
+    def part_switch_window():
+        # (j) class 7: the s function on both sides of the switch within factors 1.01 and 100, and exponents of extreme
+        #     magnitude, against the Coulomb integral (rescaled variable).  Below the switch the code returns the r -> 0 limit:
+        #     exact to alpha r^2 / 3 (GridVerif.C17.s_origin) -- sampled where that is below 1e-11 (alpha r^2 <= 3e-11); the
+        #     unnormalised variant where its prefactor is inside the double range.
+        alphas = [1.0, 1e-6, 1e6, 1e10, 3e12, 10.0 ** ctx.rng.uniform(-10, 12), 10.0 ** ctx.rng.uniform(6, 13)] + (EXTREME_ALPHAS if large else [1e-300, 1e-120, 1e120, 1e300, 1.7976931348623157e308])
+        for a in alphas:
+            sa = math.sqrt(a)
+            radii = [thr / 100, thr / 1.01, float(np.nextafter(thr, 0)), thr, thr * 1.01, thr * 100, 0.0]
+            radii += [x / sa for x in (1e-3, 0.7, 3.0, 9.0)]
+            for r in radii:
+                if 0 < r < thr and a * r * r > 3e-11:
+                    continue  # outside the accuracy envelope of the small-r branch (reported, not asserted)
+                for nz in (True, False):
+                    if not nz and not _unnormalised_in_range("s", a):
+                        continue
+                    ref = _ref_s_scaled(a, r, nz)
+                    ctx.tagc("oracle:s:" + ("below-switch" if 0 < r < thr else "r=0" if r == 0 else "near-switch" if r <= 100 * thr else "bulk")
+                             + (":extreme-alpha" if not 1e-20 < a < 1e20 else ""))
+                    with np.errstate(all="ignore"):
+                        got = float(cb.coulomb_gaussian_s(r, a, normalized=nz)[0])
+                    if not abs(got - ref) <= 1e-10 * abs(ref):
+                        ctx.fail("oracle", "coulomb.coulomb_gaussian_s",
+                                 f"coulomb_gaussian_s(r={r!r}, alpha={a!r}, normalized={nz}) = {got!r}, but the Coulomb potential of the documented density is "
+                                 f"{mp.nstr(ref, 17)} (relative deviation {mp.nstr(abs(got - ref) / abs(ref), 4)})",
+                                 witness={"r": r, "alpha": a, "normalized": nz, "got": got, "reference": mp.nstr(ref, 20)},
+                                 snippet=SNIPPET_S_SCALED.format(alpha=a, r=r, normalized=nz, tol=1e-10))
+
+    def part_unknown_keys():
+        # (k) class 9: the loader asked for keys it has no parameters for (elements without an entry, non-elements, objects of the
+        #     wrong type), repeatedly and between successful loads: always the same rejection, and what the library keeps
+        #     (the module cache = the parsed file, grid.utils.sym2num / num2sym) is what it was
+        raw_float = {k: {kk: [float(x) for x in vv] for kk, vv in v.items()} for k, v in _json_tables().items()}
+        stored = list(raw_float)
+        missing = [s_ for s_ in utils.sym2num if s_ not in raw_float]
+        for _ in range(6 if large else 2):
+            m1, m2 = ctx.rng.choice(missing), ctx.rng.choice(missing)
+            k1 = ctx.rng.choice(stored)
+            hist = [(m1, True), (m1, False), (k1, False), (m1.lower(), False), (int(utils.sym2num[m2]), False), (k1.lower(), False), ("Xx", False), (m2, False),
+                    (np.int64(utils.sym2num[m1]), False), (int(utils.sym2num[k1]), False), (0, False), (m1, False), (k1, False)]
+            _check_load_history(ctx, cb, utils, raw_float, hist, "keys without parameters between successful loads")
+
+    parts.run("coulomb.coulomb_potential:far-frames", part_far_frames)
+    parts.run("coulomb.coulomb_potential:scaled-coefficients", part_scaled)
+    parts.run("coulomb.coulomb_potential:special-inputs", part_special)
+    parts.run("coulomb.coulomb_potential:on-centre", part_on_centre)
+    parts.run("coulomb.coulomb_gaussian_s:switch-window", part_switch_window)
+    parts.run("coulomb.load_atomic_gaussian_params:unknown-keys", part_unknown_keys)
 
 
 # ----------------------------------------------------------------------------
@@ -1891,20 +1978,22 @@ def _reuse_pot_args(ctx: Ctx, thr):
     return dict(points=pts, centers_s=cs, coeffs_s=[c or 1.0 for c in co], alphas_s=al, centers_p=cp, coeffs_p=[c or 0.5 for c in cop], alphas_p=alp)
 
 
-def _oracle_reuse(ctx: Ctx, cb, thr, large):
+def _oracle_reuse(ctx: Ctx, cb, thr, large, parts=None):
+    parts = parts or _Parts(ctx, "oracle")
     """(l) the same argument array reused across calls (a contraction on one radial grid; one set of point / centre arrays for several
     potentials): float64 arrays with ndim >= 1 reach the library as the caller's own memory."""
     for i, variant in enumerate(REUSE_VARIANTS * (3 if large else 1)):
         ctx.tagc("oracle:reuse:scalar:" + variant)
-        _check_reuse_scalar(ctx, cb, _reuse_base(ctx, thr), variant, _reuse_calls(ctx, 6 if large else 4))
+        parts.run("coulomb.coulomb_gaussian:reused-array", _check_reuse_scalar, ctx, cb, _reuse_base(ctx, thr), variant, _reuse_calls(ctx, 6 if large else 4))
     # the s function then the p function (and the other way round) on one array, same exponent
     for first, second in (("s", "p"), ("p", "s"), ("s", "s"), ("p", "p")):
         ctx.tagc("oracle:reuse:scalar:pair")
-        _check_reuse_scalar(ctx, cb, [0.0, 1e-13, 0.3, 1.0, 2.5], "plain", [(first, 2.0, True), (second, 2.0, True), (first, 0.5, False)])
+        parts.run("coulomb.coulomb_gaussian:reused-array", _check_reuse_scalar, ctx, cb, [0.0, 1e-13, 0.3, 1.0, 2.5], "plain",
+                  [(first, 2.0, True), (second, 2.0, True), (first, 0.5, False)])
     for variant in ("plain", "readonly", "strided", "slice-of-larger", "reversed-view") * (2 if large else 1):
         ctx.tagc("oracle:reuse:pot:" + variant)
         calls = [(False, True), (True, True), (True, False), (False, False), (True, True)]
-        _check_reuse_pot(ctx, cb, _reuse_pot_args(ctx, thr), variant, calls[: (5 if large else 4)])
+        parts.run("coulomb.coulomb_potential:reused-arrays", _check_reuse_pot, ctx, cb, _reuse_pot_args(ctx, thr), variant, calls[: (5 if large else 4)])
 
 
 def _corr_reuse(ctx: Ctx, cb, thr):
@@ -1941,6 +2030,481 @@ def _corr_reuse(ctx: Ctx, cb, thr):
                      witness={"radii": orig.ravel().tolist(), "variant": variant, "calls": calls})
 
 
+# ----------------------------------------------------------------------------
+# round 4: close consecutive centres, arrays held by grid objects, argument routes, raising calls, shapes 1 / 2 / unequal
+# ----------------------------------------------------------------------------
+CLOSE_DELTAS = [1e-12, 1e-11, 1e-10, 1e-9, 1e-8, 1e-7, 1e-6, 1e-5, 1e-4, 1e-3]
+
+
+def _close_centre_args(ctx: Ctx, thr):
+    """Consecutive centres that are distinct but close (every quick run): a second centre at R + delta e (absolute) and at
+    R (1 + delta) (relative to its coordinates), delta = 1e-12 .. 1e-3, with other coefficients / exponents; a p centre next
+    to the last s centre (and exactly on it); finite-difference pairs R +- h/2 e with coefficients +-1/h.  Evaluation points a
+    few delta away from the centres (where the two potentials differ in the leading digits), on the centres, and far."""
+    out = []
+
+    def unit():
+        d = [ctx.rng.gauss(0, 1) for _ in range(3)]
+        if ctx.rng.random() < 0.4:
+            d = [0.0, 0.0, 0.0]
+            d[ctx.rng.randrange(3)] = ctx.rng.choice([1.0, -1.0])
+        n = math.sqrt(sum(x * x for x in d))
+        return [x / n for x in d]
+
+    def alpha_for(delta):
+        # points sit 3..30 delta from a centre: exponents for which that is inside / at the edge of the Gaussian;
+        # below 1e-10 the radii reach the small-r switch, where the code is exact to rounding for alpha <= 1e8
+        hi = 8.0 if delta <= 1e-10 else min(12.0, -2 * math.log10(delta) - 1)
+        return 10.0 ** ctx.rng.uniform(max(-1.0, hi - 4), hi)
+
+    def pts_around(centres, delta):
+        pts = []
+        for c in centres:
+            for m in (3.0, 30.0):
+                e = unit()
+                pts.append([x + m * delta * y for x, y in zip(c, e)])
+        pts.append(list(centres[0]))
+        pts.append(list(centres[-1]))
+        pts.append([ctx.rng.uniform(-3, 3) for _ in range(3)])
+        return pts
+
+    for delta in CLOSE_DELTAS:
+        R = [ctx.rng.choice([-1, 1]) * ctx.rng.uniform(0.5, 3) for _ in range(3)]
+        e = unit()
+        a1, a2 = alpha_for(delta), alpha_for(delta)
+        Rabs = [x + delta * y for x, y in zip(R, e)]
+        Rrel = [x * (1 + delta) for x in R]
+        none_p = dict(centers_p=None, coeffs_p=None, alphas_p=None)
+        # absolute / relative neighbour, same and different exponents, three in a row, neighbour first
+        out.append((f"abs-{delta:g}", dict(points=pts_around([R, Rabs], delta), centers_s=[R, Rabs], coeffs_s=[1.0, -0.7], alphas_s=[a1, a1], **none_p)))
+        out.append((f"rel-{delta:g}", dict(points=pts_around([R, Rrel], delta * 2), centers_s=[R, Rrel], coeffs_s=[0.6, 1.3], alphas_s=[a1, a2], **none_p)))
+        out.append((f"three-{delta:g}", dict(points=pts_around([Rabs, R, Rrel], delta), centers_s=[Rabs, R, Rrel, R], coeffs_s=[1.0, 2.0, -1.5, 0.25],
+                                             alphas_s=[a1, a2, a1, a2], **none_p)))
+        # a p centre next to the last s centre (the p loop starts where the s loop ended), and exactly on it
+        out.append((f"p-next-to-last-s-{delta:g}", dict(points=pts_around([R, Rabs], delta), centers_s=[[0.0, 0.0, 0.0], R], coeffs_s=[0.5, 1.0], alphas_s=[a2, a1],
+                                                         centers_p=[Rabs, Rrel], coeffs_p=[1.0, -0.5], alphas_p=[a1, a2])))
+    R = [1.25, -0.75, 2.0]
+    a1 = 10.0 ** ctx.rng.uniform(0, 3)
+    out.append(("p-on-last-s", dict(points=pts_around([R], 1e-3), centers_s=[[0.0, 0.0, 0.0], R], coeffs_s=[0.5, 1.0], alphas_s=[2.0, a1],
+                                    centers_p=[R, R], coeffs_p=[1.0, -0.5], alphas_p=[a1, 3.0])))
+    # finite-difference pairs: d/dR_i of the potential of one function
+    for h in (1e-3, 1e-5, 1e-7):
+        for ax in range(3):
+            R = [ctx.rng.uniform(-2, 2) for _ in range(3)]
+            plus, minus = list(R), list(R)
+            plus[ax] += h / 2
+            minus[ax] -= h / 2
+            a = 10.0 ** ctx.rng.uniform(-1, 3)
+            pts = [[x + ctx.rng.uniform(-1, 1) / math.sqrt(a) for x in R] for _ in range(3)] + [list(R)]
+            out.append((f"fd-pair-h{h:g}-axis{ax}", dict(points=pts, centers_s=[plus, minus], coeffs_s=[1 / h, -1 / h], alphas_s=[a, a],
+                                                        centers_p=[minus, plus], coeffs_p=[-1 / h, 1 / h], alphas_p=[a, a])))
+    return out
+
+
+def _shape_pot_args(ctx: Ctx):
+    """Class 20: N points, Ks s functions, Kp p functions with unequal sizes, sizes 1 and 2, and the square cases N = 3 / Ks = 3
+    (points or centres of shape (3, 3)); the first point on the first centre, the last point on the last centre."""
+    out = []
+    for N, Ks, Kp in [(1, 2, None), (2, 1, None), (1, 1, 1), (2, 2, 1), (1, 3, 2), (3, 1, 2), (3, 2, 1), (2, 3, 1), (3, 3, None), (3, 3, 3), (4, 3, 2),
+                      (3, 4, 1), (1, 4, 3), (4, 1, 3), (2, 5, None), (5, 2, 4), (3, 2, 0), (2, 0, 3), (1, 0, 1), (6, 1, 1)]:
+        cs, co, al = _rand_gaussians(ctx, Ks)
+        co = [c or 1.0 for c in co]
+        pts = [[ctx.rng.uniform(-3, 3) for _ in range(3)] for _ in range(N)]
+        args = dict(points=pts, centers_s=cs, coeffs_s=co, alphas_s=al, centers_p=None, coeffs_p=None, alphas_p=None)
+        allc = list(cs)
+        if Kp is not None:
+            cp, cop, alp = _rand_gaussians(ctx, Kp)
+            args.update(centers_p=cp, coeffs_p=[c or 0.5 for c in cop], alphas_p=alp)
+            allc += cp
+        if allc:
+            pts[0] = list(allc[0])
+            pts[-1] = list(allc[-1])
+        out.append((f"N{N}-Ks{Ks}-Kp{Kp}", args))
+    return out
+
+
+R4_KINDS = ("negstride", "bool", "f16", "int32", "readonly", "fortran", "strided", "f32")
+
+
+def _corr_round4(ctx: Ctx, cb, utils, thr, parts):
+    """Correspondence of the GENERATED coulomb_potential on the round-4 classes: close consecutive centres, unequal / small
+    shapes, further container kinds (negative stride, bool, float16); scalar functions on radii of shape (1,5) … (2,1,3)."""
+    cases = []
+    for nz in (True, False):
+        for name, args in _close_centre_args(ctx, thr):
+            cases.append((_args_to_call(args, nz), ctx.rng.choice(["kw", "pos", "allkw"]), "f64:close-centres"))
+    for name, args in _shape_pot_args(ctx):
+        cases.append((_args_to_call(args, ctx.rng.random() < 0.5), ctx.rng.choice(["kw", "pos", "allkw"]), "f64:shapes"))
+    for _ in range(ctx.n(24, 400)):
+        ks, kp = ctx.rng.choice([1, 2, 3]), ctx.rng.choice([None, 1, 2])
+        integer = ctx.rng.random() < 0.5
+        if integer:  # 0 / 1 valued: exact under bool, int and float16
+            cs = [[float(ctx.rng.randint(0, 1)) for _ in range(3)] for _ in range(ks)]
+            args = dict(points=[[float(ctx.rng.randint(0, 1)) for _ in range(3)] for _ in range(3)], centers_s=cs, coeffs_s=[1.0] * ks, alphas_s=[1.0] * ks,
+                        centers_p=None, coeffs_p=None, alphas_p=None)
+            if kp:
+                args.update(centers_p=[[float(ctx.rng.randint(0, 1)) for _ in range(3)] for _ in range(kp)], coeffs_p=[1.0] * kp, alphas_p=[1.0] * kp)
+            kinds = [ctx.rng.choice(R4_KINDS) for _ in range(7)]
+        else:
+            cs, co, al = _rand_gaussians(ctx, ks)
+            args = dict(points=[[ctx.rng.uniform(-3, 3) for _ in range(3)] for _ in range(4)], centers_s=cs, coeffs_s=co, alphas_s=al, centers_p=None, coeffs_p=None, alphas_p=None)
+            if kp:
+                cp, cop, alp = _rand_gaussians(ctx, kp)
+                args.update(centers_p=cp, coeffs_p=cop, alphas_p=alp)
+            kinds = [ctx.rng.choice(("negstride", "readonly", "fortran", "strided", "f64")) for _ in range(7)]
+        cases.append((_args_to_call(args, ctx.rng.random() < 0.5, kinds), ctx.rng.choice(["kw", "pos", "allkw"]), "mixed:" + "+".join(sorted(set(kinds)))))
+    lines = [_pot_line(c) for c, _, _ in cases]
+    answers = driver_batch(lines)
+    for (call, route, label), line in zip(cases, answers):
+        objs = [call.get(nme) for nme in POT_NAMES]
+        snap = _snapshot(objs)
+        itag, v = _impl_pot(cb, call, route)
+        mtag, t = _ans(line)
+        w = dict(_call_witness(call), route=route)
+        ctx.count(["pot-r4", w], nontrivial=True, tag="pot:r4:" + label.split(":")[1 if label.startswith("f64:") else 0])
+        if label.startswith("mixed:"):
+            for kd in label.split(":")[1].split("+"):
+                ctx.tagc("pot:kind:" + kd)
+        if itag != mtag:
+            ctx.fail("corr", "coulomb_potential", f"coulomb_potential ({label}, via {route}): implementation {itag}, generated model {mtag or 'unmodelled'}", witness=w)
+            continue
+        if _snapshot(objs) != snap:
+            ctx.fail("corr", "coulomb_potential:inputs-modified", f"coulomb_potential modified one of its arguments ({label})", witness=w)
+        if itag != "ok":
+            continue
+        mshape, mv = t.vec(), t.fvec()
+        scale = _pot_scale(cb, call)
+        if not (isinstance(v, np.ndarray) and v.dtype == np.float64 and list(v.shape) == mshape
+                and all(close(float(a), b, rtol=RTOL, scale=max(float(sc), abs(b))) for a, b, sc in zip(v, mv, scale))):
+            ctx.fail("corr", "coulomb_potential", f"coulomb_potential ({label}, via {route}): implementation {np.asarray(v).tolist()} [shape {np.shape(v)}], "
+                     f"generated model {mv} [shape {mshape}]", witness=w)
+    # scalar functions: radii of unequal / unit extents -- the driver at every entry, the shape of the input
+    fns = {"s": cb.coulomb_gaussian_s, "p": cb.coulomb_gaussian_p}
+    for shape in [(1, 5), (5, 1), (2, 3), (3, 2), (1, 1), (2, 1, 3), (1,), (2,), (1, 2, 1), (3, 1, 2)]:
+        n = int(np.prod(shape))
+        kind, nz, a = ctx.rng.choice("sp"), ctx.rng.random() < 0.6, 10.0 ** ctx.rng.uniform(-2, 3)
+        flat = [0.0] + [10.0 ** ctx.rng.uniform(-3, 1) / math.sqrt(a) for _ in range(n - 1)]
+        flat = flat[::-1] if ctx.rng.random() < 0.5 else flat  # r = 0 first or last
+        arr = np.array(flat).reshape(shape)
+        if ctx.rng.random() < 0.5 and arr.ndim >= 2:
+            arr = np.asfortranarray(arr)
+        ans = driver_batch([f"C17.{kind} {f2b(float(x))} {f2b(a)} {int(nz)}" for x in arr.ravel()])
+        with np.errstate(all="ignore"):
+            got = fns[kind](arr, a, normalized=nz)
+        ctx.count(["scalar-shape", list(shape), kind, a, nz], nontrivial=True, tag=f"{kind}:shape:{'x'.join(map(str, shape))}")
+        ok = isinstance(got, np.ndarray) and got.shape == tuple(shape)
+        if ok:
+            for g, line in zip(got.ravel(), ans):
+                tag, t = _ans(line)
+                ok = ok and tag == "ok" and close(float(g), t.flt(), rtol=RTOL)
+        if not ok:
+            ctx.fail("corr", f"coulomb_gaussian_{kind}:shape", f"coulomb_gaussian_{kind} on radii of shape {shape}: result of shape {np.shape(got)}, values "
+                     f"{np.asarray(got).ravel().tolist()} vs the generated model entry by entry", witness={"r": arr.tolist(), "alpha": a, "normalized": nz})
+
+
+SNIPPET_ROUTES = """import warnings; warnings.filterwarnings('ignore')
+import numpy as np
+from grid.coulomb import coulomb_potential
+args = {args!r}
+A = {{k: (None if v is None else (np.array(v, dtype=float).reshape(-1, 3) if k in ('points', 'centers_s', 'centers_p') else np.array(v, dtype=float))) for k, v in args.items()}}
+P, CS, KS, AS, CP, KP, AP = (A[k] for k in ('points', 'centers_s', 'coeffs_s', 'alphas_s', 'centers_p', 'coeffs_p', 'alphas_p'))
+nz = {normalized!r}
+base = coulomb_potential(points=P, centers_s=CS, coeffs_s=KS, alphas_s=AS, centers_p=CP, coeffs_p=KP, alphas_p=AP, normalized=nz)
+routes = {{
+    'all positional': lambda: coulomb_potential(P, CS, KS, AS, CP, KP, AP, nz),
+    'p centres positional, rest by keyword': lambda: coulomb_potential(P, CS, KS, AS, CP, alphas_p=AP, coeffs_p=KP, normalized=nz),
+    'keywords in another order': lambda: coulomb_potential(normalized=nz, alphas_p=AP, coeffs_p=KP, centers_p=CP, alphas_s=AS, coeffs_s=KS, centers_s=CS, points=P),
+}}
+if nz:
+    routes['normalized omitted'] = lambda: coulomb_potential(P, CS, KS, AS, CP, KP, AP)
+if CP is None:
+    routes['p arguments omitted'] = lambda: coulomb_potential(P, CS, KS, AS, normalized=nz)
+for name, call in routes.items():
+    got = call()
+    assert np.array_equal(got, base), f'{{name}}: {{got.tolist()}} vs all-keyword call {{base.tolist()}}'
+"""
+
+
+def _oracle_round4(ctx: Ctx, cb, utils, thr, large, parts):
+    mp = _mp()
+    fns = {"s": cb.coulomb_gaussian_s, "p": cb.coulomb_gaussian_p}
+
+    # (m) close consecutive centres, p centre next to the last s centre, finite-difference pairs -- every run
+    def part_close():
+        for name, args in _close_centre_args(ctx, thr):
+            nz = ctx.rng.random() < 0.7
+            ctx.tagc("oracle:close-centres:" + name.rsplit("-", 1)[0].split("-h")[0])
+            _check_pot_exact(ctx, cb, args, nz, f"consecutive centres close to each other ('{name}')", s_closed_form=(ctx.rng.random() < 0.5))
+
+    # (n) class 20: unequal sizes, sizes 1 and 2, (3, 3) points / centres
+    def part_shapes():
+        for name, args in _shape_pot_args(ctx):
+            ctx.tagc("oracle:shapes")
+            _check_pot_exact(ctx, cb, args, ctx.rng.random() < 0.5, f"shapes {name}")
+        for shape in [(1, 5), (5, 1), (2, 3), (3, 2), (1, 1), (2, 1, 3), (1,), (2,)]:
+            for kind in ("s", "p"):
+                a = 10.0 ** ctx.rng.uniform(-2, 3)
+                n = int(np.prod(shape))
+                flat = [0.0] + [10.0 ** ctx.rng.uniform(-3, 1) / math.sqrt(a) for _ in range(n - 1)]
+                arr = np.array(flat[::-1] if ctx.rng.random() < 0.5 else flat).reshape(shape)
+                with np.errstate(all="ignore"):
+                    got = fns[kind](arr, a)
+                bad = not isinstance(got, np.ndarray) or got.shape != tuple(shape)
+                if not bad:
+                    for g, r in zip(got.ravel(), arr.ravel()):
+                        ref = _closed_form_mp(kind, a, float(r), True)
+                        bad = bad or not abs(float(g) - ref) <= 1e-10 * abs(ref)
+                if bad:
+                    ctx.fail("oracle", f"coulomb.coulomb_gaussian_{kind}:shape", f"coulomb_gaussian_{kind} on radii {arr.tolist()} (shape {shape}), alpha={a!r}: result "
+                             f"{np.asarray(got).tolist()} (shape {np.shape(got)}) is not the closed form entry by entry",
+                             witness={"r": arr.tolist(), "alpha": a},
+                             snippet=SNIPPET_REUSE.format(base=[float(x) for x in arr.ravel()], variant="plain", calls=[(kind, a, True)]).replace(
+                                 "arr, owner = build(base, variant)", f"arr = np.array(base).reshape({tuple(shape)!r}); owner = arr"))
+
+    # (o) class 14: arrays held by grid objects handed to the functions (int64 points of UniformInteger, points of a transformed
+    #     radial grid, the (N, 3) points of an off-centre AtomGrid), the arrays returned by the loader as coefficients / exponents
+    def part_grid_objects():
+        from grid.atomgrid import AtomGrid
+        from grid.onedgrid import GaussLegendre, UniformInteger
+        from grid.rtransform import BeckeRTransform
+        rg = BeckeRTransform(0.0, R=1.5).transform_1d_grid(GaussLegendre(ctx.rng.choice([4, 5, 6])))
+        ui = UniformInteger(ctx.rng.choice([5, 8]))
+        holders = [("UniformInteger.points", ui, lambda g: g.points), ("transformed radial grid .points", rg, lambda g: g.points)]
+        for name, obj, get in holders:
+            pristine = np.array(get(obj), dtype=float, copy=True)
+            for kind, a, nz in [("s", 2.0, True), ("p", 0.7, True), ("s", 10.0 ** ctx.rng.uniform(0, 6), False)]:
+                ctx.tagc("oracle:grid-object:" + name.split(".")[0].split(" ")[0])
+                snip = SNIPPET_REUSE.format(base=pristine.tolist(), variant="plain", calls=[(kind, a, nz)]).replace(
+                    "arr, owner = build(base, variant)", "arr = np.array(base).astype(" + ("np.int64" if get(obj).dtype.kind == "i" else "float") + "); owner = arr")
+                try:
+                    with np.errstate(all="ignore"):
+                        got = fns[kind](get(obj), a, normalized=nz)
+                except Exception as e:  # noqa: BLE001
+                    ctx.fail("oracle", f"coulomb.coulomb_gaussian_{kind}:grid-object", f"coulomb_gaussian_{kind}({name} [{get(obj).dtype} array {pristine.tolist()}], alpha={a!r}, "
+                             f"normalized={nz}) raised {type(e).__name__}: {e}; non-negative radii and a positive exponent",
+                             witness={"radii": pristine.tolist(), "dtype": str(get(obj).dtype), "alpha": a, "normalized": nz, "holder": name}, snippet=snip)
+                    continue
+                bad = got.shape != pristine.shape or got.dtype != np.float64 or not np.array_equal(np.asarray(get(obj), dtype=float), pristine)
+                for g, r in zip(got.ravel(), pristine.ravel()):
+                    ref = _closed_form_mp(kind, a, float(r), nz)
+                    bad = bad or not abs(float(g) - ref) <= 1e-10 * abs(ref)
+                if bad:
+                    ctx.fail("oracle", f"coulomb.coulomb_gaussian_{kind}:grid-object", f"coulomb_gaussian_{kind}({name} [{get(obj).dtype}], alpha={a!r}, normalized={nz}) = "
+                             f"{got.tolist()} is not the closed form at the grid's radii {pristine.tolist()} (or the grid's array was changed: now {np.asarray(get(obj)).tolist()})",
+                             witness={"radii": pristine.tolist(), "alpha": a, "normalized": nz, "holder": name}, snippet=snip)
+        centre = np.array([0.5, -0.25, 1.0])
+        ag = AtomGrid(rg, degrees=[3] * rg.size, center=centre)
+        pristine = np.array(ag.points, dtype=float, copy=True)
+        co, al = cb.load_atomic_gaussian_params(ctx.rng.choice(["C", "O", 7]))
+        co0, al0 = co.copy(), al.copy()
+        for nz in (True, False):
+            ctx.tagc("oracle:grid-object:AtomGrid")
+            args = dict(points=pristine.tolist(), centers_s=[centre.tolist()] * len(co0), coeffs_s=co0.tolist(), alphas_s=al0.tolist(), centers_p=None, coeffs_p=None, alphas_p=None)
+            want, scale = _pot_reference_exact(cb, args, nz, s_closed_form=True)
+            with np.errstate(all="ignore"):
+                got = cb.coulomb_potential(ag.points, np.tile(ag.center, (len(co), 1)), co, al, normalized=nz)
+            if got.shape != want.shape or np.any(np.abs(got - want) > 1e-11 * scale) or not np.array_equal(ag.points, pristine) \
+                    or not (np.array_equal(co, co0) and np.array_equal(al, al0)) or not np.array_equal(ag.center, centre):
+                ctx.fail("oracle", "coulomb.coulomb_potential:grid-object", f"coulomb_potential(AtomGrid.points, loader arrays of an element, normalized={nz}) = {got.tolist()[:6]}..., "
+                         f"weighted sum of the closed forms at the grid's points = {want.tolist()[:6]}... (or the grid's points / the loader's arrays were changed)",
+                         witness={"args": args, "normalized": nz}, snippet=SNIPPET_FAR.format(args=args, normalized=nz, tol=1e-11))
+
+    # (p) class 15: every way of handing over the same arguments gives the same array
+    def part_routes():
+        for i in range(8 if large else 3):
+            ks, kp = ctx.rng.choice([1, 2]), (None if i % 3 == 0 else ctx.rng.choice([1, 2]))
+            cs, co, al = _rand_gaussians(ctx, ks)
+            args = dict(points=[[ctx.rng.uniform(-2, 2) for _ in range(3)] for _ in range(3)], centers_s=cs, coeffs_s=co, alphas_s=al, centers_p=None, coeffs_p=None, alphas_p=None)
+            if kp:
+                cp, cop, alp = _rand_gaussians(ctx, kp)
+                args.update(centers_p=cp, coeffs_p=cop, alphas_p=alp)
+            nz = i % 2 == 0
+            ctx.tagc("oracle:routes")
+            if _check_pot_exact(ctx, cb, args, nz, "argument routes, all-keyword call"):
+                continue
+            env = {}
+            src = SNIPPET_ROUTES.format(args=args, normalized=nz)
+            try:
+                exec(compile(src, "<routes>", "exec"), env)  # noqa: S102 - our own text; the same text is the replay
+            except Exception as e:  # noqa: BLE001 - AssertionError: a route differs; anything else: a documented route is refused
+                ctx.fail("oracle", "coulomb.coulomb_potential:routes", f"coulomb_potential depends on how the arguments are handed over: {type(e).__name__}: {e}",
+                         witness={"args": args, "normalized": nz}, snippet=src)
+        # scalar functions and the loader: positional / keyword / explicit default
+        for kind in ("s", "p"):
+            r, a = np.array([0.0, 0.4, 1.7]), 10.0 ** ctx.rng.uniform(-1, 2)
+            base = fns[kind](r, a, True)
+            for name, call in (("normalized omitted", lambda: fns[kind](r, a)), ("all keywords, other order", lambda: fns[kind](normalized=True, alpha=a, r=r)),
+                               ("normalized by keyword", lambda: fns[kind](r, a, normalized=True)), ("np.True_", lambda: fns[kind](r, a, np.True_)),
+                               ("normalized=1", lambda: fns[kind](r, a, 1))):
+                ctx.tagc("oracle:routes")
+                try:
+                    res = call()
+                except Exception as e:  # noqa: BLE001
+                    res = f"{type(e).__name__}: {e}"
+                if not (isinstance(res, np.ndarray) and np.array_equal(res, base)):
+                    ctx.fail("oracle", f"coulomb.coulomb_gaussian_{kind}:routes", f"coulomb_gaussian_{kind}({r.tolist()}, {a!r}) with {name} = {res.tolist() if isinstance(res, np.ndarray) else res}, positional True gives {base.tolist()}",
+                             witness={"r": r.tolist(), "alpha": a, "route": name})
+            for name, call in (("normalized=False by keyword", lambda: fns[kind](r, a, normalized=False)), ("normalized=0", lambda: fns[kind](r, a, 0)),
+                               ("np.False_", lambda: fns[kind](r=r, alpha=a, normalized=np.False_))):
+                if not np.array_equal(call(), fns[kind](r, a, False)):
+                    ctx.fail("oracle", f"coulomb.coulomb_gaussian_{kind}:routes", f"coulomb_gaussian_{kind}({r.tolist()}, {a!r}) with {name} differs from positional False",
+                             witness={"r": r.tolist(), "alpha": a, "route": name})
+        try:
+            c1, a1 = cb.load_atomic_gaussian_params("N")
+            c2, a2 = cb.load_atomic_gaussian_params(element="N")
+            c3, a3 = cb.load_atomic_gaussian_params(element=7)
+            same, why = np.array_equal(c1, c2) and np.array_equal(a1, a2) and np.array_equal(c1, c3) and np.array_equal(a1, a3), "differ"
+        except Exception as e:  # noqa: BLE001
+            same, why = False, f"raise {type(e).__name__}: {e}"
+        if not same:
+            ctx.fail("oracle", "coulomb.load_atomic_gaussian_params:routes", f"load_atomic_gaussian_params('N'), (element='N'), (element=7) [documented parameter name] {why}",
+                     snippet="import numpy as np\nfrom grid.coulomb import load_atomic_gaussian_params as f\na, b, c = f('N'), f(element='N'), f(element=7)\n"
+                             "assert all(np.array_equal(x, y) and np.array_equal(x, z) for x, y, z in zip(a, b, c))\n")
+
+    # (q) class 16: one array object through DIFFERENT entry points (radii, then coefficients and exponents of coulomb_potential, then radii again)
+    def part_cross_entry():
+        for variant in ("plain", "slice-of-larger", "strided", "readonly"):
+            base = [0.5, 1.0, 2.0 + ctx.rng.random()]
+            x, owner = build(base, variant)  # noqa: F821
+            x0, owner0 = x.copy(), owner.copy()
+            C = [[ctx.rng.uniform(-1, 1) for _ in range(3)] for _ in range(3)]
+            P = [[ctx.rng.uniform(-2, 2) for _ in range(3)] for _ in range(2)] + [C[0]]
+            ctx.tagc("oracle:cross-entry:" + variant)
+            seq = []
+            with np.errstate(all="ignore"):
+                seq.append(("coulomb_gaussian_s(x, 2.0)", cb.coulomb_gaussian_s(x, 2.0), [float(_closed_form_mp("s", 2.0, r, True)) for r in base]))
+                args = dict(points=P, centers_s=C, coeffs_s=base, alphas_s=base, centers_p=C, coeffs_p=base, alphas_p=base)
+                want, scale = _pot_reference_exact(cb, args, True)
+                got = cb.coulomb_potential(np.array(P), np.array(C), x, x, np.array(C), x, x)
+                seq.append(("coulomb_potential(coeffs_s=x, alphas_s=x, coeffs_p=x, alphas_p=x)", got, want))
+                seq.append(("coulomb_gaussian_p(x, 0.5, normalized=False)", cb.coulomb_gaussian_p(x, 0.5, normalized=False), [float(_closed_form_mp("p", 0.5, r, False)) for r in base]))
+                seq.append(("coulomb_gaussian_s(x, 2.0) again", cb.coulomb_gaussian_s(x, 2.0), [float(_closed_form_mp("s", 2.0, r, True)) for r in base]))
+            for what, got, want in seq:
+                if np.shape(got) != np.shape(want) or np.any(np.abs(np.asarray(got) - np.asarray(want)) > 1e-10 * np.abs(want) + 1e-12):
+                    ctx.fail("oracle", "coulomb.coulomb_potential:reused-arrays", f"one array x = {base} ({variant}) used as radii, then as coefficients and exponents, then as radii again: "
+                             f"{what} = {np.asarray(got).tolist()}, reference from a pristine copy {np.asarray(want).tolist()}", witness={"x": base, "variant": variant})
+                    break
+            if not (np.array_equal(x, x0) and np.array_equal(owner, owner0)):
+                ctx.fail("oracle", "coulomb.coulomb_potential:reused-arrays", f"one array x = {base} ({variant}) through coulomb_gaussian_s, coulomb_potential, coulomb_gaussian_p: "
+                         f"x now reads {x.tolist()}", witness={"x": base, "variant": variant})
+
+    # (r) class 18: a call that raises leaves no trace -- rejected calls between accepted ones on the same array objects;
+    #     a first load that cannot read the file leaves the cache empty and the next load works
+    def part_raises_no_trace():
+        r = np.array([0.0, 1e-13, 0.3, 1.0, 2.5])
+        r0 = r.copy()
+        neg = np.array([0.5, -1.0, 0.0])
+        for kind in ("s", "p"):
+            ref = [float(_closed_form_mp(kind, 3.0, x, True)) for x in r0]
+            for badcall in (lambda: fns[kind](r, -1.0), lambda: fns[kind](r, 0.0), lambda: fns[kind](neg, 3.0), lambda: fns[kind](r, "x"), lambda: fns[kind]("r", 3.0),
+                            lambda: fns[kind](r, np.array([1.0, 2.0]))):
+                ctx.tagc("oracle:raises-no-trace:scalar")
+                try:
+                    with np.errstate(all="ignore"):
+                        badcall()
+                except Exception:  # noqa: BLE001
+                    pass
+                with np.errstate(all="ignore"):
+                    got = fns[kind](r, 3.0)
+                if not (np.array_equal(r, r0) and np.all(np.abs(got - np.array(ref)) <= 1e-10 * np.abs(ref))):
+                    ctx.fail("oracle", f"coulomb.coulomb_gaussian_{kind}:after-exception", f"after a rejected call with the same radial array, coulomb_gaussian_{kind}({r0.tolist()}, 3.0) = "
+                             f"{got.tolist()} (closed form {ref}); the array now reads {r.tolist()}", witness={"r": r0.tolist()})
+                    break
+        cs, co, al = _rand_gaussians(ctx, 3)
+        co = [c or 1.0 for c in co]
+        P = np.array(cs[:1] + [[ctx.rng.uniform(-2, 2) for _ in range(3)] for _ in range(3)])
+        C, K, A = np.array(cs), np.array(co), np.array(al)
+        snap = [x.copy() for x in (P, C, K, A)]
+        args = dict(points=P.tolist(), centers_s=cs, coeffs_s=co, alphas_s=al, centers_p=cs, coeffs_p=co, alphas_p=al)
+        want, scale = _pot_reference_exact(cb, args, True)
+        Abad = A.copy(); Abad[-1] = -1.0
+        for badcall in (lambda: cb.coulomb_potential(P, C, K, Abad), lambda: cb.coulomb_potential(P, C, K, A, C, K, Abad), lambda: cb.coulomb_potential(P, C, K, A, C, K),
+                        lambda: cb.coulomb_potential(P[:, :2], C, K, A), lambda: cb.coulomb_potential(P, C, K[:2], A), lambda: cb.coulomb_potential(P, C, K, A, C, K[:1], A),
+                        lambda: cb.coulomb_potential(P, C, ["a", "b", "c"], A)):
+            ctx.tagc("oracle:raises-no-trace:pot")
+            try:
+                with np.errstate(all="ignore"):
+                    badcall()
+                ctx.fail("oracle", "coulomb.coulomb_potential:guards", "a malformed / rejected coulomb_potential call of the raises-no-trace sequence was accepted",
+                         witness={"args": args})
+            except (ValueError, TypeError):
+                pass
+            with np.errstate(all="ignore"):
+                got = cb.coulomb_potential(P, C, K, A, C, K, A)
+            if not (all(np.array_equal(x, y) for x, y in zip((P, C, K, A), snap)) and got.shape == want.shape and np.all(np.abs(got - want) <= 1e-11 * scale)):
+                ctx.fail("oracle", "coulomb.coulomb_potential:after-exception", f"after a rejected call with the same argument arrays coulomb_potential = {got.tolist()}, "
+                         f"weighted sum {want.tolist()} (or an argument array was changed)", witness={"args": args},
+                         snippet=SNIPPET_FAR.format(args=args, normalized=True, tol=1e-11))
+                break
+        # the loader: unreadable resource on a cold start
+        raw_float = {k: {kk: [float(x) for x in vv] for kk, vv in v.items()} for k, v in _json_tables().items()}
+        saved, saved_files = cb._ATOMIC_GAUSS_PARAMS_CACHE, cb.files
+        try:
+            cb._ATOMIC_GAUSS_PARAMS_CACHE = None
+
+            def no_files(pkg):
+                raise FileNotFoundError(pkg)
+            cb.files = no_files
+            ctx.tagc("oracle:raises-no-trace:loader")
+            tag1, _ = _impl_load(cb, "C")
+            cache_after = cb._ATOMIC_GAUSS_PARAMS_CACHE
+            tag_unknown, _ = _impl_load(cb, "Xx")  # argument checks come first: still ValueError
+            cb.files = saved_files
+            tag2, arrs = _impl_load(cb, "C")
+            good = tag1 == "value-error" and cache_after is None and tag_unknown == "value-error" and tag2 == "ok" \
+                and np.array_equal(arrs[0], raw_float["C"]["coeffs_s"]) and np.array_equal(arrs[1], raw_float["C"]["alphas_s"]) \
+                and not _cache_differs(cb._ATOMIC_GAUSS_PARAMS_CACHE, raw_float)
+            if not good:
+                ctx.fail("oracle", "coulomb.load_atomic_gaussian_params:after-exception",
+                         f"cold start with an unreadable resource: load('C') -> {tag1} (ValueError expected), cache afterwards {'None' if cache_after is None else 'not None'}; "
+                         f"with the resource back load('C') -> {tag2}" + ("" if tag2 != "ok" else " with arrays / a cache that are not the file's"),
+                         snippet=("import numpy as np, json\nfrom importlib.resources import files as real_files\nimport grid.coulomb as cb\n"
+                                  "raw = json.load(open(real_files('grid.data').joinpath('atomic_gauss_params.json')))\n"
+                                  "cb._ATOMIC_GAUSS_PARAMS_CACHE = None\ndef no_files(pkg):\n    raise FileNotFoundError(pkg)\ncb.files = no_files\n"
+                                  "try:\n    cb.load_atomic_gaussian_params('C'); ok = False\nexcept ValueError:\n    ok = True\n"
+                                  "assert ok and cb._ATOMIC_GAUSS_PARAMS_CACHE is None, 'unreadable resource: no ValueError or a half-built cache'\n"
+                                  "cb.files = real_files\nc, a = cb.load_atomic_gaussian_params('C')\n"
+                                  "assert np.array_equal(c, raw['C']['coeffs_s']) and np.array_equal(a, raw['C']['alphas_s'])\n"))
+        finally:
+            cb.files = saved_files
+            cb._ATOMIC_GAUSS_PARAMS_CACHE = saved
+
+    # (s) class 19: where erf / exp / the table are extreme -- erf saturating (x = 5.5 .. 6.5), exp(-x^2) under-flowing
+    #     (x = 26 .. 28), x up to 1e8; the shipped contractions of every stored element along a ray from the nucleus
+    def part_extreme_consumed():
+        for a in [1.0, 10.0 ** ctx.rng.uniform(-6, 10)]:
+            for x in (4.0, 4.51, 5.0, 5.5, 5.9, 5.999999, 6.0, 6.5, 9.0, 26.0, 26.6, 27.3, 28.0, 38.7, 1e3, 1e8):
+                r = x / math.sqrt(a)
+                for kind in ("s", "p"):
+                    for nz in (True, False):
+                        ctx.tagc("oracle:extreme-consumed:" + kind)
+                        ref = _ref_s_scaled(a, r, nz) if kind == "s" else _closed_form_mp("p", a, r, nz)
+                        with np.errstate(all="ignore"):
+                            got = float(fns[kind](r, a, normalized=nz)[0])
+                        if not abs(got - ref) <= 1e-10 * abs(ref):
+                            ctx.fail("oracle", "coulomb.coulomb_gaussian_s" if kind == "s" else "coulomb.coulomb_gaussian_p:vs-documented-formula",
+                                     f"coulomb_gaussian_{kind}(r={r!r}, alpha={a!r}, normalized={nz}) = {got!r} where sqrt(alpha) r = {x}; "
+                                     + ("Coulomb potential of the documented density" if kind == "s" else "formula of its docstring") + f" = {mp.nstr(ref, 17)}",
+                                     witness={"r": r, "alpha": a, "normalized": nz, "got": got, "reference": mp.nstr(ref, 20)},
+                                     snippet=SNIPPET_S_SCALED.format(alpha=a, r=r, normalized=nz, tol=1e-10) if kind == "s" else None)
+        raw_float = {k: {kk: [float(x) for x in vv] for kk, vv in v.items()} for k, v in _json_tables().items()}
+        for sym in raw_float:
+            co, al = cb.load_atomic_gaussian_params(sym)
+            R = [ctx.rng.uniform(-2, 2) for _ in range(3)]
+            d = [0.6, -0.48, 0.64]
+            radii = [0.0, 1e-13, 1e-9, 0.5 / math.sqrt(max(al)), 1 / math.sqrt(max(al)), 0.1, 1 / math.sqrt(min(al)), 6 / math.sqrt(min(al)), 50.0]
+            args = dict(points=[[c + t * x for c, x in zip(R, d)] for t in radii], centers_s=[R] * len(co), coeffs_s=co.tolist(), alphas_s=al.tolist(),
+                        centers_p=None, coeffs_p=None, alphas_p=None)
+            ctx.tagc("oracle:extreme-consumed:shipped-contraction")
+            _check_pot_exact(ctx, cb, args, True, f"shipped contraction of {sym} along a ray from the nucleus", tol=1e-11, s_closed_form=True)
+
+    for key, fn in (("coulomb.coulomb_potential:close-centres", part_close), ("coulomb.coulomb_potential:shapes", part_shapes),
+                    ("coulomb.coulomb_potential:grid-objects", part_grid_objects), ("coulomb.coulomb_potential:routes", part_routes),
+                    ("coulomb.coulomb_potential:cross-entry", part_cross_entry), ("coulomb:after-exception", part_raises_no_trace),
+                    ("coulomb.coulomb_gaussian:extreme-consumed", part_extreme_consumed)):
+        parts.run(key, fn)
+
+
 def oracle(ctx: Ctx, budget: str):
     cb = importlib.import_module("grid.coulomb")
     utils = importlib.import_module("grid.utils")
@@ -1963,7 +2527,7 @@ def oracle(ctx: Ctx, budget: str):
     for _ in range(120 if large else 16):
         a = 10.0 ** ctx.rng.uniform(-10, 14)
         samples.append((a, 10.0 ** ctx.rng.uniform(math.log10(thr), math.log10(thr) + 8)))
-    for kind in ("s", "p"):
+    def part_value(kind):
         nfail = 0
         for a, r in samples:
             for nz in (True, False):
@@ -1979,6 +2543,7 @@ def oracle(ctx: Ctx, budget: str):
                              witness={"r": r, "alpha": a, "normalized": nz, "got": got, "reference": mp.nstr(ref, 20),
                                       "lean": "GridVerif.C17.p_code_ne_correct / p_code_fails_poisson" if kind == "p" else None},
                              snippet=SNIPPET_POT.format(kind=kind, alpha=a, r=r, normalized=nz))
+    def part_poisson(kind):
         # (b) radial Poisson residual of r*V (5-point second difference of the implementation)
         for a, x in [(1.0, 1.0), (2.0, 0.7), (1e-4, 1.3), (1e4, 0.4)] + [(10.0 ** ctx.rng.uniform(-6, 6), ctx.rng.uniform(0.3, 2.5))
                                                                            for _ in range(30 if large else 3)]:
@@ -1993,6 +2558,7 @@ def oracle(ctx: Ctx, budget: str):
                          f"density requires -4 pi r rho = {want!r}",
                          witness={"r": r, "alpha": a, "second_difference": d2, "required": want},
                          snippet=SNIPPET_POT.format(kind=kind, alpha=a, r=r, normalized=True))
+    def part_far(kind):
         # (c) large r: r V(r) -> total charge
         for a in [1.0, 1e-6, 1e6, 10.0 ** ctx.rng.uniform(-6, 6)]:
             for nz in (True, False):
@@ -2004,6 +2570,7 @@ def oracle(ctx: Ctx, budget: str):
                         ctx.fail("oracle", f"coulomb.coulomb_gaussian_{kind}:far",
                                  f"coulomb_gaussian_{kind}: r V(r) = {got!r} at r={r!r}, alpha={a!r}, normalized={nz}; total charge {mp.nstr(q, 17)}",
                                  witness={"r": r, "alpha": a, "normalized": nz})
+    def part_switch(kind):
         # (d) continuity across the small-r switch (and r = 0 = limit)
         for a in [1.0, 1e-6, 1e6, 3.0, 10.0 ** ctx.rng.uniform(-6, 6)]:
             for nz in (True, False):
@@ -2014,6 +2581,7 @@ def oracle(ctx: Ctx, budget: str):
                              f"coulomb_gaussian_{kind} jumps across the small-r switch: alpha={a!r}, normalized={nz}: V(0)={zero!r}, "
                              f"V(thr-)={below!r}, V(thr)={at!r}, V(thr+)={above!r}, V(small)={small!r}",
                              witness={"alpha": a, "normalized": nz})
+    def part_unnormalised(kind):
         # unnormalised / normalised = ratio of the documented densities
         for a in [1.0, 0.37, 1e-6, 1e6, 10.0 ** ctx.rng.uniform(-6, 6)]:
             s0 = mp.mpf(1) / mp.sqrt(mp.mpf(a))
@@ -2024,6 +2592,7 @@ def oracle(ctx: Ctx, budget: str):
                     ctx.fail("oracle", f"coulomb.coulomb_gaussian_{kind}:unnormalised",
                              f"coulomb_gaussian_{kind}(normalized=False)/(normalized=True) = {u / n_!r} at r={r!r}, alpha={a!r}; "
                              f"the documented densities differ by {mp.nstr(fac, 17)}", witness={"r": r, "alpha": a})
+    def part_guards(kind):
         # rejected inputs
         for r, a in [(1.0, 0.0), (1.0, -2.0), (-1e-9, 1.0)]:
             try:
@@ -2032,62 +2601,78 @@ def oracle(ctx: Ctx, budget: str):
             except ValueError:
                 pass
 
-    # (e) multi-centre = weighted sum of the single-centre functions (and, s-only, of the mpmath potentials),
-    #     arguments handed over as float64 / float32 / lists / strided Fortran arrays, every call twice
-    for i in range(40 if large else 6):
-        ks, kp = ctx.rng.randrange(0, 4), ctx.rng.choice([None, 0, 1, 3])
-        cs, co, al = _rand_gaussians(ctx, ks)
-        if i % 3 == 2:
-            al = [10.0 ** ctx.rng.uniform(6, 13) for _ in al]  # tight: the small-r switch is within reach of the points below
-        P = [[ctx.rng.uniform(-3, 3) for _ in range(3)] for _ in range(3)] + ([list(cs[0])] if ks else [])
-        if ks:
-            near = list(cs[-1]); near[ctx.rng.randrange(3)] += ctx.rng.choice([1, 2, 7, 50]) * thr; P.append(near)
-        args = dict(points=P, centers_s=np.array(cs, float).reshape(-1, 3).tolist(), coeffs_s=co, alphas_s=al, centers_p=None, coeffs_p=None, alphas_p=None)
-        if kp is not None:
-            cp, cop, alp = _rand_gaussians(ctx, kp)
-            args.update(centers_p=np.array(cp, float).reshape(-1, 3).tolist(), coeffs_p=cop, alphas_p=alp)
-        _check_pot_property(ctx, cb, args, ctx.rng.random() < 0.5, "generated centre/coefficient set", mp_check=(kp is None and ks and i < 3))
-    # the same array object for the s and the p parameters
-    cs, co, al = _rand_gaussians(ctx, 2)
-    C, Kc, A_ = np.array(cs), np.array(co), np.array(al)
-    Pn = np.array(cs + [[0.3, -0.2, 0.9]])
-    with np.errstate(all="ignore"):
-        want = sum(c * (cb.coulomb_gaussian_s(np.linalg.norm(Pn - ctr, axis=1), a) + cb.coulomb_gaussian_p(np.linalg.norm(Pn - ctr, axis=1), a))
-                   for c, a, ctr in zip(co, al, cs))
-        try:
-            got = cb.coulomb_potential(Pn, C, Kc, A_, C, Kc, A_)
-        except Exception as e:  # noqa: BLE001
-            got = None
-            ctx.fail("oracle", "coulomb.coulomb_potential", f"coulomb_potential with the same array objects for the s and p parameters raised {type(e).__name__}: {e}",
+    def part_multi():
+        # (e) multi-centre = weighted sum of the single-centre functions (and, s-only, of the mpmath potentials),
+        #     arguments handed over as float64 / float32 / lists / strided Fortran arrays, every call twice
+        for i in range(40 if large else 6):
+            ks, kp = ctx.rng.randrange(0, 4), ctx.rng.choice([None, 0, 1, 3])
+            cs, co, al = _rand_gaussians(ctx, ks)
+            if i % 3 == 2:
+                al = [10.0 ** ctx.rng.uniform(6, 13) for _ in al]  # tight: the small-r switch is within reach of the points below
+            P = [[ctx.rng.uniform(-3, 3) for _ in range(3)] for _ in range(3)] + ([list(cs[0])] if ks else [])
+            if ks:
+                near = list(cs[-1]); near[ctx.rng.randrange(3)] += ctx.rng.choice([1, 2, 7, 50]) * thr; P.append(near)
+            args = dict(points=P, centers_s=np.array(cs, float).reshape(-1, 3).tolist(), coeffs_s=co, alphas_s=al, centers_p=None, coeffs_p=None, alphas_p=None)
+            if kp is not None:
+                cp, cop, alp = _rand_gaussians(ctx, kp)
+                args.update(centers_p=np.array(cp, float).reshape(-1, 3).tolist(), coeffs_p=cop, alphas_p=alp)
+            _check_pot_property(ctx, cb, args, ctx.rng.random() < 0.5, "generated centre/coefficient set", mp_check=(kp is None and ks and i < 3))
+    def part_same_object():
+        # the same array object for the s and the p parameters
+        cs, co, al = _rand_gaussians(ctx, 2)
+        C, Kc, A_ = np.array(cs), np.array(co), np.array(al)
+        Pn = np.array(cs + [[0.3, -0.2, 0.9]])
+        with np.errstate(all="ignore"):
+            want = sum(c * (cb.coulomb_gaussian_s(np.linalg.norm(Pn - ctr, axis=1), a) + cb.coulomb_gaussian_p(np.linalg.norm(Pn - ctr, axis=1), a))
+                       for c, a, ctr in zip(co, al, cs))
+            try:
+                got = cb.coulomb_potential(Pn, C, Kc, A_, C, Kc, A_)
+            except Exception as e:  # noqa: BLE001
+                got = None
+                ctx.fail("oracle", "coulomb.coulomb_potential", f"coulomb_potential with the same array objects for the s and p parameters raised {type(e).__name__}: {e}",
+                         witness={"centers": cs, "coeffs": co, "alphas": al})
+        if got is not None and np.max(np.abs(got - want)) > 1e-9 * (1 + np.max(np.abs(want))):
+            ctx.fail("oracle", "coulomb.coulomb_potential", "coulomb_potential with the same array objects for the s and p parameters differs from the weighted sum",
                      witness={"centers": cs, "coeffs": co, "alphas": al})
-    if got is not None and np.max(np.abs(got - want)) > 1e-9 * (1 + np.max(np.abs(want))):
-        ctx.fail("oracle", "coulomb.coulomb_potential", "coulomb_potential with the same array objects for the s and p parameters differs from the weighted sum",
-                 witness={"centers": cs, "coeffs": co, "alphas": al})
 
-    # (f) the shipped table, every element symbol and number, as histories of calls (lazy cache: first call after the
-    #     module cache was emptied, warm calls, other elements in between, returned arrays overwritten by the caller)
-    raw = _json_tables()
-    raw_float = {k: {kk: [float(x) for x in vv] for kk, vv in v.items()} for k, v in raw.items()}
-    for sym in raw:
-        if sym not in utils.sym2num:
-            ctx.fail("oracle", f"data:atomic_gauss_params:{sym}", f"key {sym!r} of atomic_gauss_params.json is not an element symbol")
-        ent = raw_float[sym]
-        if not (len(ent["coeffs_s"]) == len(ent["alphas_s"]) > 0 and all(a > 0 for a in ent["alphas_s"])):
-            ctx.fail("oracle", f"data:atomic_gauss_params:{sym}", f"entry {sym!r} of atomic_gauss_params.json: arrays do not match or an exponent is not positive")
-    for z, sym in utils.num2sym.items():
-        els = [sym, int(z), sym, int(z), sym.lower(), f"  {sym.upper()} ", np.int64(z)]
-        _check_load_history(ctx, cb, utils, raw_float, [(e, False) for e in els], "every element symbol / number, each twice")
-    stored = list(raw)
-    pool = stored + [s_.lower() for s_ in stored] + [int(utils.sym2num[s_]) for s_ in stored] + [np.int64(utils.sym2num[stored[0]]), np.uint8(utils.sym2num[stored[-1]]),
-                                                                                               True, "He", 2, "Xx", 0, 119, -1, 10**9, 2.0, None, " h ", "HE", "he"]
-    for _ in range(12 if large else 3):
-        hist = [(ctx.rng.choice(pool), ctx.rng.random() < 0.2) for _ in range(ctx.rng.randrange(4, 14))]
-        hist[0] = (hist[0][0], True)
-        _check_load_history(ctx, cb, utils, raw_float, hist, "history of calls")
-    for e in ("Xx", "", "H2", "Hydrogen", "h e", 0, -1, 119, 10**9, False, np.int64(0)):
-        _check_load_history(ctx, cb, utils, raw_float, [(e, False)], "non-elements")
-    for e in (2.0, 1.0, None, [1], b"H", np.float64(6.0)):
-        _check_load_history(ctx, cb, utils, raw_float, [(e, False)], "neither str nor int")
+
+    def part_table():
+        # (f) the shipped table, every element symbol and number, as histories of calls (lazy cache: first call after the
+        #     module cache was emptied, warm calls, other elements in between, returned arrays overwritten by the caller)
+        raw = _json_tables()
+        raw_float = {k: {kk: [float(x) for x in vv] for kk, vv in v.items()} for k, v in raw.items()}
+        for sym in raw:
+            if sym not in utils.sym2num:
+                ctx.fail("oracle", f"data:atomic_gauss_params:{sym}", f"key {sym!r} of atomic_gauss_params.json is not an element symbol")
+            ent = raw_float[sym]
+            if not (len(ent["coeffs_s"]) == len(ent["alphas_s"]) > 0 and all(a > 0 for a in ent["alphas_s"])):
+                ctx.fail("oracle", f"data:atomic_gauss_params:{sym}", f"entry {sym!r} of atomic_gauss_params.json: arrays do not match or an exponent is not positive")
+        for z, sym in utils.num2sym.items():
+            els = [sym, int(z), sym, int(z), sym.lower(), f"  {sym.upper()} ", np.int64(z)]
+            _check_load_history(ctx, cb, utils, raw_float, [(e, False) for e in els], "every element symbol / number, each twice")
+        stored = list(raw)
+        pool = stored + [s_.lower() for s_ in stored] + [int(utils.sym2num[s_]) for s_ in stored] + [np.int64(utils.sym2num[stored[0]]), np.uint8(utils.sym2num[stored[-1]]),
+                                                                                                   True, "He", 2, "Xx", 0, 119, -1, 10**9, 2.0, None, " h ", "HE", "he"]
+        for _ in range(12 if large else 3):
+            hist = [(ctx.rng.choice(pool), ctx.rng.random() < 0.2) for _ in range(ctx.rng.randrange(4, 14))]
+            hist[0] = (hist[0][0], True)
+            _check_load_history(ctx, cb, utils, raw_float, hist, "history of calls")
+        for e in ("Xx", "", "H2", "Hydrogen", "h e", 0, -1, 119, 10**9, False, np.int64(0)):
+            _check_load_history(ctx, cb, utils, raw_float, [(e, False)], "non-elements")
+        for e in (2.0, 1.0, None, [1], b"H", np.float64(6.0)):
+            _check_load_history(ctx, cb, utils, raw_float, [(e, False)], "neither str nor int")
+
+    parts = _Parts(ctx, "oracle")
+    for kind in ("s", "p"):
+        for name, fn in (("value", part_value), ("poisson", part_poisson), ("far", part_far), ("switch", part_switch),
+                         ("unnormalised", part_unnormalised), ("guards", part_guards)):
+            parts.run(f"coulomb.coulomb_gaussian_{kind}:{name}", fn, kind)
+    parts.run("coulomb.coulomb_potential:sum", part_multi)
+    parts.run("coulomb.coulomb_potential:same-object", part_same_object)
+    parts.run("coulomb.load_atomic_gaussian_params:table", part_table)
     # round 3
-    _oracle_round3(ctx, cb, utils, thr, large)
-    _oracle_reuse(ctx, cb, thr, large)
+    _oracle_round3(ctx, cb, utils, thr, large, parts)
+    _oracle_reuse(ctx, cb, thr, large, parts)
+    # round 4
+    _oracle_round4(ctx, cb, utils, thr, large, parts)
+    parts.finish()
